@@ -44,6 +44,40 @@ def gen_call(rng: random.Random, depth: int):
     return ["fill", gen_acts(rng, depth - 1, 3)]
 
 
+VIAS = ["since", "slice", "until_frame", "until_int"]
+
+
+def gen_safe_call(rng: random.Random, depth: int):
+    """An action that lets no exception out of the hook it runs in (used for the convenience spellings, whose hooks
+    are elaborate_frame hooks of real frames: there a raising hook prunes the inward frames, which Root-based trees do not)."""
+    k = rng.random()
+    if depth <= 0 or k < 0.3:
+        return "observe"
+    if k < 0.6:
+        t = ["extract", rng.choice(B), rng.choice(B), gen_hooks(rng, depth - 1, 2)]
+        return t
+    if k < 0.75:
+        return ["extract", rng.choice(B), rng.choice(B), [[gen_safe_call(rng, depth - 1) for _ in range(rng.randint(1, 2))]
+                                                            for _ in range(rng.randint(1, 2))], rng.choice(VIAS)]
+    if k < 0.9:
+        return ["child", rng.choice(B), gen_hooks(rng, depth - 1, 2)]
+    return ["fill", ["observe"]]
+
+
+def gen_spelled(rng: random.Random, depth: int):
+    hooks = [[gen_safe_call(rng, depth - 1) for _ in range(rng.randint(1, 3))] for _ in range(rng.randint(1, 3))]
+    return ["extract", rng.choice(B), rng.choice(B), hooks, rng.choice(VIAS)]
+
+
+def strip_via(t):
+    """The same tree with every spelled extract written as a plain one (what the model and the reference are given)."""
+    if isinstance(t, list):
+        if t and t[0] == "extract":
+            return ["extract", t[1], t[2], [[strip_via(x) for x in h] for h in t[3]]]
+        return [strip_via(x) for x in t]
+    return t
+
+
 def gen_call_abort(rng: random.Random, depth: int):
     """Trees that also contain `abort` (a BaseException that hooks do not contain: it unwinds through every enclosing
     extraction) and `["catch", acts]` (a hook body that catches it and carries on)."""
@@ -173,6 +207,10 @@ class Probe:
         def elab_mgr(m, ctx):
             outer.run_acts(m.acts)
 
+        @stackscope.elaborate_frame.register(Probe.carrier)
+        def elab_carrier(frame, next_inner):
+            outer.run_acts(frame.pyframe.f_locals["acts"])
+
         self.tls = threading.local()
         self.turn = None  # optional callable(threadname) blocking until it is this thread's turn
 
@@ -220,7 +258,10 @@ class Probe:
             except self.Cancel:
                 self.log.append("caught")
             return
-        if tag == "extract":
+        if tag == "extract" and len(a) > 4:
+            st = self.run_spelled(a[4], a[1], a[2], a[3])
+            assert isinstance(st, ss.Stack) and st.error is None, st.error
+        elif tag == "extract":
             st = ss.extract(self.Root(a[3]), with_contexts=a[1], recurse_child_tasks=a[2])
             assert isinstance(st, ss.Stack)
         elif tag == "outermost":
@@ -280,6 +321,35 @@ class Probe:
         else:
             raise ValueError(tag)
 
+    # the convenience spellings: the same extraction asked for through extract_since / extract(StackSlice) / extract_until,
+    # over real frames of the calling thread; hook i is the elaborate_frame hook of the i-th `carrier` frame
+    def carrier(self, hooks, i, go):
+        acts = hooks[i]  # noqa: F841  (read by the elaborate_frame hook registered for this function)
+        if i + 1 < len(hooks):
+            return self.carrier(hooks, i + 1, go)
+        return go()
+
+    def run_spelled(self, via, wc, rc, hooks):
+        import sys
+
+        ss = self.ss
+
+        def base():
+            f0 = sys._getframe(0)
+
+            def go():
+                if via == "since":
+                    return ss.extract_since(f0, with_contexts=wc, recurse_child_tasks=rc)
+                if via == "slice":
+                    return ss.extract(ss.StackSlice(outer=f0), with_contexts=wc, recurse_child_tasks=rc)
+                if via == "until_frame":
+                    return ss.extract_until(sys._getframe(0), limit=f0, with_contexts=wc, recurse_child_tasks=rc)
+                return ss.extract_until(sys._getframe(0), limit=len(hooks) + 2, with_contexts=wc, recurse_child_tasks=rc)
+
+            return self.carrier(hooks, 0, go) if hooks else go()
+
+        return base()
+
     def run_top(self, tree) -> str:
         self.tls.log = []
         raised = False
@@ -327,12 +397,12 @@ def interleavings(lens: List[int], rng: random.Random, cap: int) -> List[List[in
 
 class C13(PropCheck):
     pid = "C13"
-    rule = ("call trees (extract / extract_outermost / extract_child / fill_context / observe / raise, all option pairs) "
+    rule = ("call trees (extract -- also spelled extract_since / extract(StackSlice) / extract_until(frame) / extract_until(int) over real frames -- / extract_outermost / extract_child / fill_context / observe / raise, all option pairs) "
             "exhaustive over a small family plus random trees of depth<=4; 2-4 real threads under forced "
             "interleavings of their hook actions; non-trivial = the tree contains a nested API call or a raise; "
             "distinct = distinct tree (and schedule)")
     manifest = {
-        "text": "Lean: C13_push_sites (read off the source on every run: extract and extract_outermost hand both options to push unchanged, fill_context pushes (True, False), push restores in a finally around its yield), C13_gcm_keeps_options (beneath a generator-based manager the options are still the enclosing extraction's), C13_abort_unwinds / C13_restore_also_on_abort / C13_catch_sees_outer (a BaseException raised by a hook is not contained by the extraction, unwinds through every enclosing one, and every push still restores: a hook that catches it sees the outer options again). Lean theorems over a call-tree model of ExtractOptions.push / extract / extract_outermost / extract_child / fill_context: C13_restore (every call, at any nesting depth and also when it ends in an exception, leaves the thread's options as it found them), C13_observed (every hook observation equals the options of the innermost enclosing extraction), C13_child_guard, C13_stub*, C13_fill_*, and C13_threads (frame rule: under every interleaving of any number of threads each thread's option cell and read history equal its solo run). The model is tied to /repo by executing generated call trees and forced thread interleavings against the real API and diffing hook-visible observations with the model's.",
+        "text": "Lean: C13_push_sites (read off the source on every run: extract and extract_outermost hand both options to push unchanged, fill_context pushes (True, False), push restores in a finally around its yield), C13_wrapper_sites (likewise read off the source: every extract(...) call inside extract_since and extract_until hands on both of its own option arguments), C13_gcm_keeps_options (beneath a generator-based manager the options are still the enclosing extraction's), C13_abort_unwinds / C13_restore_also_on_abort / C13_catch_sees_outer (a BaseException raised by a hook is not contained by the extraction, unwinds through every enclosing one, and every push still restores: a hook that catches it sees the outer options again). Lean theorems over a call-tree model of ExtractOptions.push / extract / extract_outermost / extract_child / fill_context: C13_restore (every call, at any nesting depth and also when it ends in an exception, leaves the thread's options as it found them), C13_observed (every hook observation equals the options of the innermost enclosing extraction), C13_child_guard, C13_stub*, C13_fill_*, and C13_threads (frame rule: under every interleaving of any number of threads each thread's option cell and read history equal its solo run). The model is tied to /repo by executing generated call trees and forced thread interleavings against the real API and diffing hook-visible observations with the model's.",
         "note": "Theorems are about the model; agreement model<->code is measured on generated trees (exhaustive small family + random, depth<=4) and 2-4 real threads under forced schedules at hook-action granularity. Preemption inside push() itself is covered only by the frame-rule theorem plus CPython's threading.local semantics (assumed).",
     }
     assumptions = [
@@ -358,6 +428,14 @@ class C13(PropCheck):
         for a, b in itertools.product(B, B):
             out.append({"k": "tree", "tree": ["extract", a, b, [[["gcm", ["observe", ["child", True, [["observe"]]]]], "observe"]]]})
             out.append({"k": "tree", "tree": ["extract", a, b, [[["gcm", [["fill", ["observe"]], ["gcm", ["observe"]]]]]]]})
+        # the convenience spellings (extract_since, extract(StackSlice), extract_until with a frame / an int limit) hand both
+        # options on: the same tree asked for through each of them behaves as the plain extract does
+        for a, b in itertools.product(B, B):
+            for via in VIAS:
+                out.append({"k": "tree", "tree": ["extract", a, b, [["observe", ["child", True, [["observe"]]], ["child", False, [["observe"]]]]], via]})
+                out.append({"k": "tree", "tree": ["extract", not a, b, [[["extract", a, not b, [["observe"]], via], "observe"]]]})
+        for _ in range(n // 3):
+            out.append({"k": "tree", "tree": gen_spelled(rng, rng.randint(1, 3))})
         # threads
         nthr = 12 if tier == "quick" else 40
         for _ in range(nthr):
@@ -450,7 +528,7 @@ class C13(PropCheck):
     def model_line(self, case):
         d = {"p": "C13", "k": case["k"]}
         if case["k"] == "tree":
-            d["tree"] = case["tree"]
+            d["tree"] = strip_via(case["tree"])
         else:
             d["trees"] = case["trees"]
         return json.dumps(d)
@@ -468,7 +546,7 @@ class C13(PropCheck):
                 if f:
                     return f"thread running {json.dumps(t)[:200]}: {f}"
             return None
-        return self.oracle_tree(case["tree"], real)
+        return self.oracle_tree(strip_via(case["tree"]), real)
 
     def oracle_tree(self, tree, real: str) -> Optional[str]:
         """Reference interpretation of the documented scoping rules, written independently of the
